@@ -263,7 +263,8 @@ def _gc(d, keep):
 # ----------------------------------------------------------------------------- correspondence
 
 ABORTS = ("assert", "unimpl", "oob")
-RESYNC_OPS = ("set", "new", "reset", "init")
+RESYNC_OPS = ("set", "new", "reset", "init", "gen")
+SKIP_MODEL = ("unmodelled", "mmio")
 
 
 def _run_bin(exe, text, timeout=3600):
@@ -323,6 +324,11 @@ def compare_script(script, a, b):
         ra = a[i] if i < len(a) else "<no-output>"
         rb = b[i] if i < len(b) else "<no-output>"
         if unit in tainted:
+            continue
+        if rb.startswith(SKIP_MODEL):
+            # the model declines (opcode not modelled yet / access into the MMIO window in the bare
+            # core model): nothing to compare on this line, and the states diverge until the next resync
+            tainted.add(unit)
             continue
         if ra != rb:
             return i
